@@ -2,6 +2,14 @@
 
 package wallet
 
+import (
+	"time"
+
+	"github.com/btcsuite/btcd/chaincfg/chainhash"
+	"github.com/btcsuite/btcd/wire"
+	"github.com/btcsuite/btcwallet/waddrmgr"
+)
+
 // VerifPoint, when set by a conformance harness, is called at named points of
 // the wallet's background work (e.g. "resend.done" when a re-broadcast pass
 // has finished). It only exists in builds with the verif tag.
@@ -11,4 +19,17 @@ func verifPoint(w *Wallet, name string) {
 	if f := VerifPoint; f != nil {
 		f(w, name)
 	}
+}
+
+// VerifChainConn is the part of the chain backend the birthday search uses.
+type VerifChainConn interface {
+	GetBestBlock() (*chainhash.Hash, int32, error)
+	GetBlockHash(int64) (*chainhash.Hash, error)
+	GetBlockHeader(*chainhash.Hash) (*wire.BlockHeader, error)
+}
+
+// VerifLocateBirthdayBlock exposes the unexported birthday block search to a
+// conformance harness.
+func VerifLocateBirthdayBlock(c VerifChainConn, birthday time.Time) (*waddrmgr.BlockStamp, error) {
+	return locateBirthdayBlock(c, birthday)
 }
